@@ -90,6 +90,26 @@ func (m Member) declInfo() types.Info {
 	return m.info()
 }
 
+// badOffset looks for a struct field (at any depth) whose Offset is not the
+// sum of the widths of the fields before it in its struct.
+func badOffset(t types.Info, path string) (string, int, int, bool) {
+	if t.Type != types.TStruct {
+		return "", 0, 0, false
+	}
+	var ofs types.Size
+	for _, fld := range t.Struct {
+		name := path + "." + fld.Name
+		if fld.Type.Offset != ofs {
+			return name, int(fld.Type.Offset), int(ofs), true
+		}
+		if where, got, want, bad := badOffset(fld.Type, name); bad {
+			return where, got, want, true
+		}
+		ofs += fld.Type.Bits
+	}
+	return "", 0, 0, false
+}
+
 func structInfo(fields []types.StructField) types.Info {
 	var bits, minBits, ofs types.Size
 	for i := range fields {
@@ -321,6 +341,16 @@ func runSizes(cs SizeCase) ev.Outcome {
 			structOK = false
 			f.add("sizes/InstantiateWithSizes/struct-bits", "struct type has %d bits, members sum to %d",
 				typ.Bits, sum)
+		}
+		if structOK && !plain {
+			// A field starts where the fields before it end (the
+			// compiler selects a field's wires by Offset and Bits).
+			if where, got, wantOfs, bad := badOffset(typ, "a"); bad {
+				structOK = false
+				f.add("sizes/InstantiateWithSizes/field-offset",
+					"after InstantiateWithSizes(%v) on %s field %s has offset %d, the fields before it take %d bits",
+					sizes, describe(ms), where, got, wantOfs)
+			}
 		}
 		if !structOK || lossy {
 			continue
